@@ -274,6 +274,9 @@ def singleton_digests(state):
 
 def warm_singletons():
     """force the lazily filled singletons so that before/after digests compare like with like"""
+    import simaple.api.base            # noqa: F401  (everything the API path imports: all component classes register now)
+    import simaple.container.simulation  # noqa: F401
+    import simaple.simulate.kms        # noqa: F401
     from simaple.data.jobs.builtin import get_kms_jobs_repository
     get_kms_jobs_repository()
     try:
@@ -526,13 +529,16 @@ def record_engine(t, cap):
         env = build_env(t)
         comps = get_skill_components(env)
         extra = {}
+        names = [c.name for c in comps]
         for a, b in t["addons"]:
-            src, dst = comps[a % len(comps)], comps[b % len(comps)]
-            if src.name != dst.name:
-                extra.setdefault(a % len(comps), []).append(
-                    _ComponentAddon(when="use", destination=dst.name, method="use", payload={}))
+            a, b = sorted((a % len(comps), b % len(comps)))       # source before destination: no cycles
+            if a != b and names.count(names[a]) == 1 and names.count(names[b]) == 1:
+                extra.setdefault(a, []).append(_ComponentAddon(when="use", destination=names[b], method="use", payload={}))
+        first = ['CAST "%s"' % comps[i].name for i in sorted(extra)[:6]]      # make sure wired components are used
         comps = [c.model_copy(update={"addons": list(c.addons) + extra[i]}) if i in extra else c for i, c in enumerate(comps)]
         engine = get_builder(comps, env.character.action_stat).build_operation_engine()
+        t = dict(t)
+        t["plan"] = first + list(t["plan"])
     else:
         engine = get_operation_engine(build_env(t))
     router = engine._router
@@ -577,6 +583,11 @@ def record_engine(t, cap):
             rec["depth"] += 1
             try:
                 evs = RouterDispatcher.__call__(self, action, store)
+            except BaseException:
+                if top:     # the failing dispatch is part of the history: the model has to fail on it too
+                    rec["calls"].append({"sig": rec["cur"]["sig"], "hit": rec["cur"]["hit"], "trace": None})
+                    rec["cur"] = None
+                raise
             finally:
                 rec["depth"] -= 1
             if top:
@@ -617,7 +628,7 @@ def record_engine(t, cap):
         rec["error"] = err_text(e)
     universe = []
     for c in rec["calls"]:
-        for s in [c["sig"]] + [s for _i, s in c["trace"]]:
+        for s in [c["sig"]] + [s for _i, s in (c["trace"] or [])]:
             if s not in universe:
                 universe.append(s)
     for st in structure:
@@ -644,11 +655,12 @@ def record_engine(t, cap):
         "id": "engine:" + t["id"], "kind": "engine+addons" if t.get("addons") else "engine", "job": t["job"],
         "ops": [["I", d] for d in disp] + [["D", sid[c["sig"]]] for c in rec["calls"]],
         "late": False, "universe": [sid[s] for s in universe],
-        "expected": [{"hit": c["hit"], "trace": [[i, sid[s]] for i, s in c["trace"]], "events": None} for c in rec["calls"]],
+        "expected": [{"hit": c["hit"], "trace": None if c["trace"] is None else [[i, sid[s]] for i, s in c["trace"]], "events": None}
+                     for c in rec["calls"]],
         "cache": cache,
         "facts": {"dispatchers": len(disp), "signatures": len(universe), "top_level_dispatches": len(rec["calls"]),
                   "nested_dispatches": rec["nested"], "hits": sum(1 for c in rec["calls"] if c["hit"]),
-                  "primitive_calls": sum(len(c["trace"]) for c in rec["calls"]),
+                  "primitive_calls": sum(len(c["trace"] or []) for c in rec["calls"]),
                   "events_concatenated_in_call_order": rec["concat_ok"], "cache_keys_outside_universe": extra_keys,
                   "error": rec.get("error")},
     }
